@@ -37,6 +37,9 @@ const (
 	MapLocalFn           Kind = "map-after-call-local-functions"
 	UrlLocalFn           Kind = "url-after-call-local-functions"
 	StructAfterAbandoned Kind = "struct-tag-after-a-call-abandoned-by-a-panicking-function"
+	// VarAfterRefused (round 14): Var right after Var calls that were refused before validation (a struct, a map, nil)
+	// although they carried rules no value satisfies.
+	VarAfterRefused Kind = "var-after-refused-var-calls"
 	// StructTagWide: the tagged field is the 70th field of its struct (66 untagged and 3 tagged fields before it).
 	StructTagWide Kind = "struct-tag-field-70"
 	// MapLarge: the entry stands among 24 other entries that no rule mentions.
@@ -74,7 +77,7 @@ const (
 )
 
 var All = []Kind{StructTag, StructRM, Var, Map, MapIface, SliceMap, Url, UrlEsc, StructTagHist, StructTagOtherTag, StructTagLocalFn, VarLocalFn, StructTagWide, MapLarge, StructRMAfterPlain, UrlMany, UrlTwice, UrlRMReused, StructWrappers, VarWrappers, MapWrappers, UrlWrappers,
-	StructFirstLocalFn, StructFirstOverride, StructFirstOtherTag, StructFirstNested, MapRMEdited, UrlRMEdited, StructRMEdited, MapLocalFn, UrlLocalFn, StructAfterAbandoned}
+	StructFirstLocalFn, StructFirstOverride, StructFirstOtherTag, StructFirstNested, MapRMEdited, UrlRMEdited, StructRMEdited, MapLocalFn, UrlLocalFn, StructAfterAbandoned, VarAfterRefused}
 
 // Box is the named carrier type for per-call rules.
 type Box[T any] struct{ F T }
@@ -409,6 +412,11 @@ func Validate(k Kind, v reflect.Value, rules string) (string, bool) {
 		p := reflect.New(st)
 		p.Elem().Field(0).Set(v)
 		err = valid.Struct(p.Interface())
+	case VarAfterRefused:
+		_ = valid.Var(struct{ A int }{1}, "ge=100|zz", "le=-100|zz", "required|zz")
+		_ = valid.Var(map[string]int{"a": 1}, "in=(zz)|zz", "eq=-7|zz")
+		_ = valid.Var(nil, "phone|zz")
+		err = valid.Var(v.Interface(), rules)
 	case VarLocalFn:
 		vv := valid.NewVVar()
 		for n, f := range localFns() {
